@@ -174,13 +174,16 @@ func normalizeOrderInsensitiveWithQValues(value string) string {
 outer:
 	for i := range parts {
 		part := parts[i]
-		main, allParamsRaw, found := strings.Cut(part, ";")
+		// (the ";" that separate parameters are those outside quoted-strings: a
+		// parameter value may be a quoted-string, RFC 9110 §5.6.6)
+		pieces := splitOutsideQuotes(part, ';')
+		main, found := pieces[0], len(pieces) > 1
 		// optional white space may precede the ";" (RFC 9110 §5.6.6)
 		main = textproto.TrimString(main)
 		q := maxQValue
 		params := make([]string, 0, 2)
 		if found {
-			for param := range strings.SplitSeq(allParamsRaw, ";") {
+			for _, param := range pieces[1:] {
 				param = strings.TrimSpace(param)
 				switch {
 				// q is case insensitive
@@ -247,6 +250,25 @@ outer:
 		}
 	}
 	return s.String()
+}
+
+// splitOutsideQuotes splits s at every sep that is not inside a quoted-string
+// (a backslash inside one escapes the next byte). It returns at least one piece.
+func splitOutsideQuotes(s string, sep byte) []string {
+	pieces := make([]string, 0, 2)
+	start, inQuotes := 0, false
+	for i := 0; i < len(s); i++ {
+		switch c := s[i]; {
+		case c == '\\' && inQuotes:
+			i++
+		case c == '"':
+			inQuotes = !inQuotes
+		case c == sep && !inQuotes:
+			pieces = append(pieces, s[start:i])
+			start = i + 1
+		}
+	}
+	return append(pieces, s[start:])
 }
 
 func formatQValue(q float64) string {
